@@ -41,6 +41,8 @@ class C02(Prop):
         ops += G.gen_signature_corruptions(rng)
         n = 3000 if tier == "quick" else 60000
         ops += ["v2 " + G.spec(h + (b"" if i % 3 else b"trailing")) for i, h in enumerate(G.gen_valid_headers(rng, n))]
+        small = G.gen_valid_headers(rng, 12, max_payload=40, big_every=10 ** 9) + [G.header(0x21, 0x11, 60000, G.rand_bytes(rng, 60000))]
+        ops += ["v2 " + G.spec(x) for x in G.gen_big_trailers(rng, small)]
         return ops
 
     def project(self, op, line):
